@@ -28,11 +28,30 @@ PLAIN = bytes(range(7, 55))  # 48 known bytes
 def _file_state(rng):
     kind = weighted(rng, [(4, "valid"), (3, "absent"), (5, "bad")])
     if kind == "valid":
-        return {"state": "valid", "bytes": rng.randbytes(32)}
+        key = rng.randbytes(32)
+        shape = rng.choice(["random", "random", "ends-newline", "ends-crlf", "starts-space", "ascii", "ends-nul"])
+        if shape == "ends-newline":
+            key = key[:31] + b"\n"
+        elif shape == "ends-crlf":
+            key = key[:30] + b"\r\n"
+        elif shape == "starts-space":
+            key = b" \t" + key[2:]
+        elif shape == "ascii":
+            key = bytes(rng.choice(b"abcdefghijklmnopqrstuvwxyz0123456789 ") for _ in range(32))
+        elif shape == "ends-nul":
+            key = key[:31] + b"\x00"
+        return {"state": "valid", "bytes": key}
     if kind == "absent":
         return {"state": "absent"}
-    n = rng.choice(SIZES)
-    return {"state": "bad", "bytes": rng.randbytes(n)}
+    key = rng.randbytes(32)
+    near = rng.choice(["size", "size", "newline", "crlf", "space", "hex", "base64", "nul", "double", "31+newline"])
+    if near == "size":
+        return {"state": "bad", "bytes": rng.randbytes(rng.choice(SIZES))}
+    import base64 as b64
+
+    content = {"newline": key + b"\n", "crlf": key + b"\r\n", "space": b" " + key + b" ", "hex": key.hex().encode(),
+               "base64": b64.b64encode(key), "nul": key + b"\x00", "double": key + key, "31+newline": key[:30] + b"\n"}[near]
+    return {"state": "bad", "bytes": content}
 
 
 def generate(rng, ctx):
